@@ -99,6 +99,61 @@ theorem versatiles_good {f : VFile} {cover : Pyramid} (hc : cover.WF) (hf : f.WF
 theorem mbtiles_good {t : List MRow} {cover : Pyramid} (hc : cover.WF) (ht : MTable.WF t) : Good (mbtilesSrc t cover) :=
   ⟨hc, mbtiles_lookup_ok cover ht, VtModel.mbtiles_stream_ok cover ht⟩
 
+/-! ### F2: the code before commit 9cbf1a6d violated the statement -/
+
+/-- `get_bbox_tile_stream` before the fix: a block coordinate of the 256-scaled box that is not in
+    the block index hit `panic!("block <…> does not exist")` (reader.rs:274) -/
+def blockChunksPre (f : VFile) (b : BBox) (bc : Coord) : Outcome (List Chunk) :=
+  match f.getBlock bc.1 bc.2.1 bc.2.2 with
+  | none => .panic
+  | some _ => blockChunks f b bc
+
+def vStreamPre (f : VFile) (b : BBox) : Outcome (List (Coord × List Nat)) :=
+  match b.scaleDown 256 with
+  | .ok sb =>
+    if sb.level > 31 ∧ sb.coords3 ≠ [] then .panic
+    else
+      match BBox.mapM (blockChunksPre f b) sb.coords3 with
+      | .ok css =>
+        match BBox.mapM (readChunk f b) css.flatten with
+        | .ok ls => .ok ls.flatten
+        | .err => .err
+        | .panic => .panic
+      | .err => .err
+      | .panic => .panic
+  | _ => .panic
+
+/-- **proved counterexample (pre-fix)**: on a container without blocks EVERY non-empty box made
+    the stream panic, although all lookups answer "no tile"; with the fix the same request
+    delivers the empty stream (instance of `versatiles_stream_ok`). -/
+theorem f2_panicked_before_fix (bytes : Nat → Nat) (b : BBox) (hl : b.level ≤ 31) (hne : b.isEmpty = false) :
+    vStreamPre ⟨[], bytes⟩ b = .panic ∧ vLookup ⟨[], bytes⟩ (b.xmin, b.ymin, b.level) = .ok none := by
+  obtain ⟨h1, h2⟩ := (not_isEmpty_iff b).mp hne
+  constructor
+  · unfold vStreamPre scaleDown
+    simp only [show (256 : Nat) ≠ 0 by decide, if_false]
+    have hsne : (⟨b.level, b.xmin / 256, b.ymin / 256, b.xmax / 256, b.ymax / 256⟩ : BBox).isEmpty = false := by
+      rw [not_isEmpty_iff]
+      exact ⟨Nat.div_le_div_right h1, Nat.div_le_div_right h2⟩
+    have hmem : ((b.xmin / 256, b.ymin / 256, b.level) : Coord) ∈
+        (⟨b.level, b.xmin / 256, b.ymin / 256, b.xmax / 256, b.ymax / 256⟩ : BBox).coords3 := by
+      rw [mem_coords3]
+      obtain ⟨e1, e2⟩ := (not_isEmpty_iff _).mp hsne
+      exact ⟨rfl, Nat.le_refl _, e1, Nat.le_refl _, e2⟩
+    rw [if_neg (by intro h; have := h.1; omega)]
+    cases hc : (⟨b.level, b.xmin / 256, b.ymin / 256, b.xmax / 256, b.ymax / 256⟩ : BBox).coords3 with
+    | nil => rw [hc] at hmem; cases hmem
+    | cons c cs =>
+      simp only [BBox.mapM, blockChunksPre, VFile.getBlock, List.find?_nil]
+  · unfold vLookup
+    rw [if_neg (by simp only; omega)]
+    simp only [VFile.getBlock, List.find?_nil]
+
+/-- a concrete instance: the level-3 box of an empty container -/
+example : vStreamPre ⟨[], fun i => i⟩ ⟨3, 0, 0, 1, 1⟩ = .panic :=
+  (f2_panicked_before_fix _ ⟨3, 0, 0, 1, 1⟩ (by decide) (by decide)).1
+example : vStream ⟨[], fun i => i⟩ ⟨3, 0, 0, 1, 1⟩ = .ok [] := by decide
+
 /-! ### non-vacuity -/
 
 /-- a concrete source: one tile at (1,1,1) -/
